@@ -29,6 +29,9 @@ def main(argv=None) -> int:
         chk = Check(prop, repo, args.tier, seed, replay_key)
         try:
             mod.run(chk)
+            from .cross import apply as _cross_apply
+
+            _cross_apply(chk)  # C01 / C08 / C11 / C19: what the interpreted rules of sibling properties decide (cross.py)
         except AnalysisError as e:
             # an anchor vanished half-way: if a violation was already established it is the verdict.  Otherwise the run
             # is broken (exit 2) on the tree the anchors were confirmed on; on a tree that differs from that snapshot the
